@@ -246,6 +246,15 @@ def audit_rules(rep, fb):
                       'the prefixed literal' if prefixed else 'the BARE literal: in a document that uses a namespace prefix (<sc:initial>) the element is taken for an ordinary state, C and Promela then disagree about its transition'))
     if not nkind:
         rep.ok('R05.10', 'generators', 'no element kind is recognised by its qualified tag name')
+    # R05.12 ids are compared in one form
+    rep.rule('R05.12', 'target ids and state ids are compared in the same form: the membership test that fills targetBools compares the raw id tokens of the target attribute with the raw id of the state (an id escaped for C string output on one side only never equals its token when it contains a backslash or a quote)')
+    mixed = []
+    for n in prep.walk():
+        if n['k'] == 'CallExpr' and n.get('callee', {}).get('q', '').startswith('std::find') and any(x['k'] == 'DeclRefExpr' and x.get('ref', {}).get('name') == 'targets' for x in sub(n)):
+            if any(x.get('callee', {}).get('q', '').split('::')[-1] == 'escape' for a_ in n.get('c', [])[3:] for x in sub(a_)):
+                mixed.append(n)
+    rep.check(not mixed, 'R05.12', 'prepare|target id comparison', locstr(mixed[0]) if mixed else prep.where(), 'the ids of the target attribute are compared with %s' % (
+        'the raw state id' if not mixed else 'the ESCAPED state id: a state id containing a backslash loses its target bit - the source is exited and nothing is entered (all three back-ends share the table)'))
     # R05.11 the transition domain works on effective targets
     rep.rule('R05.11', 'a history target stands for the states it will restore: getTransitionDomain (and with it exit set and conflicts) dereferences history pseudo-states among the targets (Appendix D getEffectiveTargetStates) instead of putting the <history> element itself into the LCCA')
     fbp = facts.FactBase(['src/uscxml/util/Predicates.cpp'])
